@@ -133,8 +133,24 @@ def run(case):
                     lines.append(",".join(["time"] + ["v%d" % k for k in range(case["ncol"])]))
                 for r in case["rows"]:
                     lines.append(",".join(r))
-                with open(fn, "w", encoding="utf-8") as fh:
-                    fh.write("\n".join(lines) + ("\n" if lines else ""))
+                text = "\n".join(lines) + ("\n" if lines else "")
+                # the path held another listing a moment ago (same length, same time stamp -- a copy made with cp -p, an
+                # export overwritten within one clock tick) and that one was loaded too: what counts is the file as it is now
+                earlier = text.translate(str.maketrans("1234", "2143"))
+                if earlier != text and len(text) % 3 == 0:
+                    with open(fn, "w", encoding="utf-8") as fh:
+                        fh.write(earlier)
+                    st = os.stat(fn)
+                    try:
+                        pi.loadTimeSeriesData(fn, case["subst"])
+                    except Exception:  # noqa
+                        pass
+                    with open(fn, "w", encoding="utf-8") as fh:
+                        fh.write(text)
+                    os.utime(fn, ns=(st.st_atime_ns, st.st_mtime_ns))
+                else:
+                    with open(fn, "w", encoding="utf-8") as fh:
+                        fh.write(text)
                 out = pi.loadTimeSeriesData(fn, case["subst"])
                 return [[repr(float(x)) for x in row] for row in out]
             return core.run_guarded(q)
